@@ -1166,6 +1166,7 @@ class Interp:
         out = []
         pos = 0
         adv_axes = []       # axes produced by advanced (array) indices
+        adv_int = []        # (position in out, axes) of the block produced by integer index arrays
         n_explicit = sum(1 for p in parts if not (isinstance(p, ast.Constant) and p.value is Ellipsis) and not (isinstance(p, ast.Constant) and p.value is None))
         def _is_newaxis(q):
             return (isinstance(q, ast.Constant) and q.value is None) or (isinstance(q, ast.Attribute) and q.attr == "newaxis")
@@ -1244,7 +1245,30 @@ class Interp:
                 if len(idx.axes) == 0:
                     pos += 1
                     continue
-                out.extend(idx.axes)
+                if adv_int:
+                    # several integer index arrays broadcast against each other into ONE block of axes
+                    start, prev = adv_int[0]
+                    a_, b_ = list(prev), list(idx.axes)
+                    n_ = max(len(a_), len(b_))
+                    a_ = [ONE] * (n_ - len(a_)) + a_
+                    b_ = [ONE] * (n_ - len(b_)) + b_
+                    merged = []
+                    for x_, y_ in zip(a_, b_):
+                        if x_.one:
+                            merged.append(y_)
+                        elif y_.one or x_ == y_ or y_.unknown:
+                            merged.append(x_)
+                        elif x_.unknown:
+                            merged.append(y_)
+                        else:
+                            self.event("axis-mismatch", node, f"index arrays of axes {prev} and {idx.axes} do not broadcast")
+                            merged.append(x_)
+                    del out[start:start + len(prev)]
+                    out[start:start] = merged
+                    adv_int[0] = (start, merged)
+                else:
+                    adv_int.append((len(out), list(idx.axes)))
+                    out.extend(idx.axes)
                 pos += 1
                 continue
             if isinstance(idx, Lst):
